@@ -228,6 +228,25 @@ func Open(dir string, opts ...walOpt) (*WAL, error) {
 	// don't need to jump through the mutateState hoops yet!
 	w.s.Store(&newState)
 
+	if recoveredTail {
+		// If the tail we recovered is already sealed then we crashed (or were
+		// closed) after the append that filled it but before the background
+		// rotation was committed to the meta store. Complete that rotation now
+		// otherwise every later append would fail with ErrSealed.
+		sealed, indexStart, err := newState.tail.Sealed()
+		if err != nil {
+			return nil, err
+		}
+		if sealed {
+			w.writeMu.Lock()
+			err := w.rotateSegmentLocked(indexStart)
+			w.writeMu.Unlock()
+			if err != nil {
+				return nil, err
+			}
+		}
+	}
+
 	// Delete any unused segment files left over after a crash.
 	w.deleteSegments(toDelete)
 
